@@ -450,54 +450,94 @@ def gradeAndRates (P : Params) (c : DB) (b : Block) : LM RateStep := do
           pure (.cont true)
       else pure (.cont false)
 
-/-- `SyncBlock(ctx, tx, height)`. `c` = committed database, `avgs`/`fromH` = what
-    `GetPegNetRateAverages` returns for the last rated height before `h` (computed by the caller
-    because it mutates the in-memory cache even when the block later fails). -/
-def syncBlock (P : Params) (c : DB) (b : Block) (avgs : TMap) : LM Unit := do
-  let h := b.height
+/-- mint / nullify-mint at their activation heights (sync.go:342-352) -/
+def preAdjust (P : Params) (c : DB) (h : Nat) : LM Unit := do
   if h = P.act.v204 then mintTokens P
   if h = P.act.v204Burn then nullifyMinted P c
-  -- GradeS runs (and may panic) at every height that has an SPR eblock
+
+/-- GradeS runs (and may panic) at every height that has an SPR eblock -/
+def sprPanicCheck (b : Block) : LM Unit :=
   match b.spr with
   | .panic s => M.throw (.panic s)
   | _ => pure ()
+
+/-- snapshot + staking payout at snapshot heights (sync.go:482-512) -/
+def snapshotPhase (P : Params) (b : Block) : LM Unit := do
+  let h := b.height
+  if h ≥ P.act.v20 ∧ h % P.snapshotRate = 0 then
+    let db ← M.get
+    let rates0 := ratesToMap P (db.ratesAt h)
+    let rates1 := if rates0.isEmpty ∧ h ≥ P.act.v202 then ratesToMap P (db.mostRecentRatesBefore h).1 else rates0
+    snapshotPayouts P h b.ts rates1 b.stakeOrder
+
+/-- bank row + held batches, only when the block has rates (sync.go:517-527) -/
+def holdingPhase (P : Params) (c : DB) (b : Block) (avgs : TMap) (ratesAvailable : Bool) : LM Unit := do
+  let h := b.height
+  if ratesAvailable then
+    if h ≥ P.act.v4 ∧ h < P.act.v20 then insertBank h P.bankBase
+    M.guarded (fun _ => none) fun db => { db with avgTouched := true }
+    let db ← M.get
+    applyHolding P c h (ratesToMap P (db.ratesAt h)) avgs (c.mostRecentRatesBefore h).2
+
+def txBlockPhase (P : Params) (b : Block) : LM Unit :=
+  match b.txs with
+  | some entries => applyTransactionBlock P b.height b.txKeymr entries
+  | none => pure ()
+
+/-- everything under `height >= TransactionConversionActivation` (sync.go:476-535) -/
+def txPhase (P : Params) (c : DB) (b : Block) (avgs : TMap) (ratesAvailable : Bool) : LM Unit := do
+  if b.height ≥ P.act.txConv then
+    snapshotPhase P b
+    holdingPhase P c b avgs ratesAvailable
+    txBlockPhase P b
+
+def oprRewardPhase (P : Params) (b : Block) : LM Unit :=
+  match b.opr with
+  | .graded g => applyGradedOPR P b.height b.ts g.winners
+  | _ => pure ()
+
+def sprRewardPhase (P : Params) (b : Block) : LM Unit := do
+  if b.height ≥ P.act.v20 then
+    match b.spr with
+    | .graded g => applyGradedSPR P b.height b.ts g.winners
+    | _ => pure ()
+
+def devRewardPhase (P : Params) (b : Block) : LM Unit := do
+  if b.height ≥ P.act.devRewards ∧ b.height % P.snapshotRate = 0 then
+    let _ ← M.swallow (developersPayouts P b.height b.ts)
+
+/-- burns, OPR rewards, SPR rewards, developer rewards (sync.go:537-579) -/
+def rewardPhase (P : Params) (b : Block) : LM Unit := do
+  if b.height < P.act.v20 then applyFactoidBlock P b.height b.burnRCD b.fcts
+  oprRewardPhase P b
+  sprRewardPhase P b
+  devRewardPhase P b
+
+/-- `SyncBlock(ctx, tx, height)`. `c` = committed database, `avgs` = what
+    `GetPegNetRateAverages` returns for the last rated height before `h` (computed by the caller
+    because it mutates the in-memory cache even when the block later fails). -/
+def syncBlock (P : Params) (c : DB) (b : Block) (avgs : TMap) : LM Unit := do
+  preAdjust P c b.height
+  sprPanicCheck b
   let step ← gradeAndRates P c b
   match step with
   | .earlyReturn => pure ()
   | .cont ratesAvailable => do
-    if h ≥ P.act.txConv then
-      let db ← M.get
-      let rates0 := ratesToMap P (db.ratesAt h)
-      if h ≥ P.act.v20 ∧ h % P.snapshotRate = 0 then
-        let rates1 := if rates0.isEmpty ∧ h ≥ P.act.v202 then ratesToMap P (db.mostRecentRatesBefore h).1 else rates0
-        snapshotPayouts P h b.ts rates1 b.stakeOrder
-      if ratesAvailable then
-        if h ≥ P.act.v4 ∧ h < P.act.v20 then insertBank h P.bankBase
-        M.guarded (fun _ => none) fun db => { db with avgTouched := true }
-        applyHolding P c h rates0 avgs (c.mostRecentRatesBefore h).2
-      match b.txs with
-      | some entries => applyTransactionBlock P h b.txKeymr entries
-      | none => pure ()
-    if h < P.act.v20 then applyFactoidBlock P h b.burnRCD b.fcts
-    match b.opr with
-    | .graded g => applyGradedOPR P h b.ts g.winners
-    | _ => pure ()
-    if h ≥ P.act.v20 then
-      match b.spr with
-      | .graded g => applyGradedSPR P h b.ts g.winners
-      | _ => pure ()
-    if h ≥ P.act.devRewards ∧ h % P.snapshotRate = 0 then
-      let _ ← M.swallow (developersPayouts P h b.ts)
+    txPhase P c b avgs ratesAvailable
+    rewardPhase P b
+
+/-- burn-address zeroing ahead of SyncBlock (sync.go:97-102); errors are discarded -/
+def burnZeroing (P : Params) (c : DB) (b : Block) : LM Unit := do
+  if b.height = P.act.devRewards then
+    let _ ← M.swallow (nullifyBurn P c b.height b.ts)
+  if b.height = P.act.v202 then
+    let _ ← M.swallow (nullifyBurn P c b.height b.ts)
 
 /-- the block transaction of one iteration of the DBlockSync loop -/
 def blockTx (P : Params) (c : DB) (b : Block) (avgs : TMap) : LM Unit := do
-  let h := b.height
-  if h = P.act.devRewards then
-    let _ ← M.swallow (nullifyBurn P c h b.ts)
-  if h = P.act.v202 then
-    let _ ← M.swallow (nullifyBurn P c h b.ts)
+  burnZeroing P c b
   syncBlock P c b avgs
-  markSynced h P.syncVersion
+  markSynced b.height P.syncVersion
 
 /-- body of the DBlockSync loop for one block: returns the new node and `none` on success or the
     failure that rolled the block back.  The averaging cache is an in-memory side effect of
